@@ -89,7 +89,8 @@ def neuter (k : XKey) : Except Bip32Err XKey :=
 def ecPrivKey (k : XKey) : Option Bytes :=
   if !k.isPrivate then none else some (paddedAppend 32 [] (BE.toBytes (BE.ofBytes k.key)))
 
-def zeroedText : Bytes := "zeroed extended key".toUTF8.toList
+/-- "zeroed extended key" -/
+def zeroedText : Bytes := ascii ['z', 'e', 'r', 'o', 'e', 'd', ' ', 'e', 'x', 't', 'e', 'n', 'd', 'e', 'd', ' ', 'k', 'e', 'y']
 
 /-- `(*ExtendedKey).String` -/
 def toString (k : XKey) : Bytes :=
